@@ -50,6 +50,7 @@ func c01Layers(thorough bool, builtinNames []string, emit c01Emit) map[string]an
 	c01L5(thorough, e, b)
 	c01L6(thorough, e, b)
 	c01L7(thorough, e, b)
+	c01L8(thorough, e, b)
 	c01L3(thorough, e, b, &stop)
 	return b
 }
@@ -640,6 +641,14 @@ func c01L5(thorough bool, e func(func() c01Case), b map[string]any) {
 		{K: "parr", S: "rest"},
 		{K: "parr", C: []*c01N{{K: "pvar", S: "v"}, {K: "pvar", S: "w"}}},
 		{K: "parr", C: []*c01N{{K: "pwild"}, {K: "pint", I: 2}}},
+		// patterns that bind a name and THEN meet an element / field that may not
+		// match (the arm does not apply although it has bound something)
+		{K: "parr", C: []*c01N{{K: "pvar", S: "v"}, {K: "pint", I: 9}}},
+		{K: "parr", C: []*c01N{{K: "pvar", S: "v"}, {K: "pvar", S: "w"}, {K: "pint", I: 9}}},
+		{K: "parr", C: []*c01N{{K: "pvar", S: "v"}, {K: "pint", I: 2}}},
+		{K: "pobj", Ss: []string{"a", "b"}, C: []*c01N{{K: "none"}, {K: "pint", I: 9}}},
+		{K: "pobj", Ss: []string{"a", "b"}, C: []*c01N{{K: "pvar", S: "v"}, {K: "pint", I: 9}}},
+		{K: "pobj", Ss: []string{"a", "b"}, C: []*c01N{{K: "pvar", S: "v"}, {K: "pint", I: 2}}},
 	}
 	scrut := append(c01Shapes(), nArr(nInt(1)), nObj("a", nInt(1), "b", nInt(2)), nArr(nInt(1), nInt(2), nInt(3)), nObj("a", nArr(nInt(1))), nInt(2), nStr("b"))
 	// what a case body reports: the bindings the pattern introduces
@@ -717,6 +726,69 @@ func c01L5(thorough bool, e func(func() c01Case), b map[string]any) {
 			n++
 		}
 	}
+	// (g) scope of an arm.  Every name a pattern of the list can bind (v, w,
+	// rest, a, b) is ALSO a variable of the enclosing block, and every arm — the
+	// one whose pattern binds it, the arms after it, the catch-all — reports all
+	// five, as does the statement after the match: an arm sees its own bindings
+	// and, for every other name, the enclosing block's variable, whatever the
+	// arms tried before it bound on the way to not applying (a later element /
+	// field that does not match, a guard that says no).
+	universe := []string{"v", "w", "rest", "a", "b"}
+	outer := func() []*c01N {
+		var d []*c01N
+		for _, nm := range universe {
+			d = append(d, sDecl(nm, nStr("outer_"+nm)))
+		}
+		return d
+	}
+	report := func(tag string) *c01N {
+		els := []*c01N{nStr(tag)}
+		for _, nm := range universe {
+			els = append(els, nVar(nm))
+		}
+		return nArr(els...)
+	}
+	guards1 := []*c01N{nil, nBool(false)}
+	if thorough {
+		guards1 = append(guards1, nBool(true), nBin("==", nVar("a"), nStr("outer_a")))
+	}
+	ng := 0
+	for _, s := range scrut {
+		for _, p1 := range pats {
+			for _, g1 := range guards1 {
+				for j := -1; j < len(pats); j++ {
+					cases := []*c01N{nCase(p1, g1, report("first"))}
+					if j >= 0 {
+						cases = append(cases, nCase(pats[j], nil, report("second")))
+					}
+					cases = append(cases, nCase(&c01N{K: "pwild"}, nil, report("other")))
+					body := append(outer(), sDecl("r", nMatch(s, cases...)), sRet(nArr(nVar("r"), report("after"))))
+					e(func() c01Case { return c01Case{Layer: "L5", P: "a", Prog: prog1(body...)} })
+					n++
+					ng++
+				}
+			}
+		}
+	}
+	// the same with the guard of the SECOND arm reading a name the first arm may have bound
+	for _, s := range scrut {
+		for _, p1 := range pats {
+			if !thorough && p1.K != "parr" && p1.K != "pobj" && p1.K != "pvar" {
+				continue
+			}
+			for _, gname := range universe {
+				g2 := nBin("==", nVar(gname), nStr("outer_"+gname))
+				body := append(outer(), sDecl("r", nMatch(s,
+					nCase(p1, nBool(false), report("first")),
+					nCase(&c01N{K: "pwild"}, g2, report("second")),
+					nCase(&c01N{K: "pwild"}, nil, report("other")))), sRet(nArr(nVar("r"), report("after"))))
+				e(func() c01Case { return c01Case{Layer: "L5", P: "a", Prog: prog1(body...)} })
+				n++
+				ng++
+			}
+		}
+	}
+	b["L5g_match_arm_scope"] = fmt.Sprintf("%d scrutinee shapes × %d patterns (first arm) × %d guards × {no second arm, each of the %d patterns as second arm} × catch-all, every arm and the statement after the match reporting all %d bindable names, which are also variables of the enclosing block; + second-arm guards reading each name: %d programs", len(scrut), len(pats), len(guards1), len(pats), len(universe), ng)
 	// (e) pipes
 	dbl := fnDef("dbl", []c01Param{{Name: "a", Type: "any"}}, "", sRet(nBin("*", nVar("a"), nInt(2))))
 	add := fnDef("add", []c01Param{{Name: "a", Type: "any"}, {Name: "b", Type: "any", Def: nInt(10)}}, "", sRet(nBin("+", nVar("a"), nVar("b"))))
@@ -929,11 +1001,15 @@ func c01L6(thorough bool, e func(func() c01Case), b map[string]any) {
 			n += 3
 		}
 	}
-	// (d) three levels of blocks: declaration level × update level × read level
+	// (d) three levels of blocks: declaration level × update level × read level,
+	// for a name nothing else carries (z) and for a name that is also the name
+	// of a module-level constant (K) / function (f): the local is an ordinary
+	// local whatever else in the program is called the same
+	for _, zn := range []string{"z", "K", "f"} {
 	for declAt := 0; declAt <= 2; declAt++ {
 		for updAt := 0; updAt <= 2; updAt++ {
 			for readAt := 0; readAt <= 2; readAt++ {
-				for _, upd := range []*c01N{sDecl("z", nInt(2)), sSet("z", nInt(2))} {
+				for _, upd := range []*c01N{sDecl(zn, nInt(2)), sSet(zn, nInt(2))} {
 					for _, wrapper := range []string{"if", "for", "while", "switch"} {
 						// level-0 statements, level-1 block, level-2 block; order: decl, upd, read within a level by position
 						l2 := []*c01N{}
@@ -952,9 +1028,9 @@ func c01L6(thorough bool, e func(func() c01Case), b map[string]any) {
 						// sequence: decl first, then update, then read; deeper levels are entered in between as needed
 						// program text order = all level-0 before?  Build explicitly as nested blocks executed in order:
 						//   [decl if 0] { [decl if 1] { [decl if 2] [upd if 2] [read if 2] } [upd if 1] [read if 1] } [upd if 0] [read if 0]
-						read := sSet("c", nVar("z"))
+						read := sSet("c", nVar(zn))
 						if declAt == 2 {
-							l2 = append(l2, sDecl("z", nInt(1)))
+							l2 = append(l2, sDecl(zn, nInt(1)))
 						}
 						if updAt == 2 {
 							l2 = append(l2, upd)
@@ -963,7 +1039,7 @@ func c01L6(thorough bool, e func(func() c01Case), b map[string]any) {
 							l2 = append(l2, read)
 						}
 						if declAt == 1 {
-							l1 = append(l1, sDecl("z", nInt(1)))
+							l1 = append(l1, sDecl(zn, nInt(1)))
 						}
 						wrapBlock := func(body []*c01N) *c01N {
 							if len(body) == 0 {
@@ -987,7 +1063,7 @@ func c01L6(thorough bool, e func(func() c01Case), b map[string]any) {
 							l1 = append(l1, read)
 						}
 						if declAt == 0 {
-							put(0, sDecl("z", nInt(1)))
+							put(0, sDecl(zn, nInt(1)))
 						}
 						l0 = append(l0, wrapBlock(l1))
 						if updAt == 0 {
@@ -997,7 +1073,75 @@ func c01L6(thorough bool, e func(func() c01Case), b map[string]any) {
 							put(0, read)
 						}
 						l0 = append(l0, sRet(nArr(nVar("c"))))
-						e(func() c01Case { return c01Case{Layer: "L6", P: "a", Prog: prog1(l0...)} })
+						pr := prog1(l0...)
+						if zn != "z" {
+							pr.Consts, pr.Fns = consts, fns
+						}
+						e(func() c01Case { return c01Case{Layer: "L6", P: "a", Prog: pr} })
+						n++
+					}
+				}
+			}
+		}
+	}
+	}
+	// (f) every way a request can come to hold a local called like a module-level
+	// name × every nested block from which `$` / a bare assignment then reaches it.
+	// name: z (control), K (module constant), f (module function); binder: `$` in
+	// the route, function parameter, for-loop value variable, for-loop index
+	// variable; the update `name = name + 5` sits 1 or 2 blocks below the binder
+	// (if / for over 2 elements / while with 2 rounds / switch, every combination
+	// for 2 levels); the binder's scope reads the name afterwards.
+	{
+		kinds := []string{"if", "for", "while", "switch"}
+		wrapK := func(kind string, level int, body []*c01N) []*c01N {
+			switch kind {
+			case "for":
+				return bl(sFor([]string{fmt.Sprintf("i%d", level)}, nArr(nInt(1), nInt(2)), body))
+			case "while":
+				t := fmt.Sprintf("t%d", level)
+				return bl(sDecl(t, nInt(0)), sWhile(nBin("<", nVar(t), nInt(2)), append(bl(sSet(t, nBin("+", nVar(t), nInt(1)))), body...)))
+			case "switch":
+				return bl(sSwitch(nInt(1), []*c01N{nInt(1)}, [][]*c01N{body}, nil))
+			}
+			return bl(sIf(nBool(true), body))
+		}
+		var nests [][]string
+		for _, k1 := range kinds {
+			nests = append(nests, []string{k1})
+			for _, k2 := range kinds {
+				nests = append(nests, []string{k1, k2})
+			}
+		}
+		for _, nm := range []string{"z", "K", "f"} {
+			for _, binder := range []string{"decl", "param", "forval", "foridx"} {
+				for _, nest := range nests {
+					for _, dollar := range []bool{true, false} {
+						upd := sSet(nm, nBin("+", nVar(nm), nInt(5)))
+						if dollar {
+							upd = sDecl(nm, nBin("+", nVar(nm), nInt(5)))
+						}
+						code := bl(upd)
+						for lv := len(nest) - 1; lv >= 0; lv-- {
+							code = wrapK(nest[lv], lv, code)
+						}
+						pr := c01Prog{Consts: consts, Fns: append([]c01Fn{}, fns...)}
+						switch binder {
+						case "decl":
+							pr.Routes = [][]*c01N{append(append(bl(sDecl(nm, nInt(1))), code...), sRet(nArr(nVar(nm))))}
+						case "param":
+							pr.Fns = append(pr.Fns, fnDef("h", []c01Param{{Name: nm, Type: "any"}}, "", append(cloneList(code), sRet(nVar(nm)))...))
+							pr.Routes = [][]*c01N{bl(sRet(nArr(nCall("h", nInt(1)))))}
+						case "forval":
+							pr.Routes = [][]*c01N{bl(sDecl("out", nArr()),
+								sFor([]string{nm}, nArr(nInt(1), nInt(2)), append(cloneList(code), sSet("out", nBin("+", nVar("out"), nArr(nVar(nm)))))),
+								sRet(nVar("out")))}
+						case "foridx":
+							pr.Routes = [][]*c01N{bl(sDecl("out", nArr()),
+								sFor([]string{nm, "q"}, nArr(nInt(7), nInt(8)), append(cloneList(code), sSet("out", nBin("+", nVar("out"), nArr(nVar(nm), nVar("q")))))),
+								sRet(nVar("out")))}
+						}
+						e(func() c01Case { return c01Case{Layer: "L6", P: "a", Prog: pr} })
 						n++
 					}
 				}
@@ -1091,7 +1235,7 @@ func c01L6(thorough bool, e func(func() c01Case), b map[string]any) {
 			n++
 		}
 	}
-	b["L6_scoping_aliasing"] = fmt.Sprintf("callee/caller locals (8 bodies × 2 signatures × 7 call contexts, call and pipe form), writes to module-level names (7 forms × 3 positions × 3 observations, same request and next request, also through a callee), write-through forms on constants holding an object / array (13 forms incl. through a local alias × 3 observations, same and next request), path parameter and implicit variables, 3-level declaration/update/read placement × 2 update forms × 4 block kinds, all sequences of ≤ %d operations over an 11-operation array-aliasing alphabet and an 8-operation object alphabet, index-assignment forms: %d cases", maxLen, n)
+	b["L6_scoping_aliasing"] = fmt.Sprintf("callee/caller locals (8 bodies × 2 signatures × 7 call contexts, call and pipe form), writes to module-level names (7 forms × 3 positions × 3 observations, same request and next request, also through a callee), write-through forms on constants holding an object / array (13 forms incl. through a local alias × 3 observations, same and next request), path parameter and implicit variables, 3-level declaration/update/read placement × 2 update forms × 4 block kinds × 3 names (z; K and f, which are also module-level names), a local called like a module-level name (3 names × 4 binders: `$`, parameter, for value / index variable) updated by `$` / bare assignment from 20 nestings of 1–2 blocks, all sequences of ≤ %d operations over an 11-operation array-aliasing alphabet and an 8-operation object alphabet, index-assignment forms: %d cases", maxLen, n)
 }
 
 // ---- L7: determinism of object iteration ---------------------------------------------
@@ -1145,4 +1289,166 @@ func c01L7(thorough bool, e func(func() c01Case), b map[string]any) {
 		}
 	}
 	b["L7_object_iteration_determinism"] = fmt.Sprintf("%d key-walking forms (keys(o), o.keys(), o |> keys, for k,v / for v over the object, for over keys(o), nested, continue/break, 2 order-independent controls) × objects of %v keys × {literal, request body}, each executed %d times on fresh interpreters + once more on a reused one: %d programs", len(forms), sizes, c01OrderRuns, n)
+}
+
+// ---- L8: histories with refused evaluations on a reused interpreter --------------------
+
+// The interpreter refuses an evaluation that nests deeper than a fixed number
+// of levels (500) and a while loop that runs longer than a fixed number of
+// rounds (10^6).  Both are outcomes like any other: what a request yields is a
+// function of the program and that request's inputs, so a request must be
+// answered the same on a fresh interpreter and on one that has refused (or
+// answered, or failed) other requests before.  Module: three recursive
+// functions (recursion inside an expression, recursion from a statement,
+// recursion that ends in a division by zero at the bottom) and a counting loop,
+// one route each, the depth / the number of rounds taken from the path parameter.
+//
+// Histories: every sequence of ≤ 2 (thorough: ≤ 3) requests over the alphabet
+// {too deep in each of the three functions, a runtime error raised 100 frames
+// down, a small request}, and the sequences with a loop that is refused.
+// Judged request: every recursion depth in a window of ±5 (±12) around the
+// deepest recursion that fits ON A FRESH INTERPRETER OF THE TREE UNDER TEST
+// (found by evaluating every depth 0, 1, 2, … on fresh interpreters up to the
+// first refusal, ≤ 520 > the limit of 500), for both recursion forms, whose
+// frames differ in size so that one of them ends exactly at the limit; the
+// small depths; the loop at 3 rounds and at every count in 999 998 … 1 000 001.
+func c01L8Module() ([]c01Fn, [][]*c01N) {
+	nv := nVar("n")
+	ip := []c01Param{{Name: "n", Type: "int", Req: true}}
+	fns := []c01Fn{
+		fnDef("down", ip, "int", sIf(nBin("<=", nv, nInt(0)), bl(sRet(nInt(0)))), sRet(nBin("+", nInt(1), nCall("down", nBin("-", nv, nInt(1)))))),
+		fnDef("step", ip, "int", sIf(nBin("<=", nv, nInt(0)), bl(sRet(nInt(0)))), sDecl("r", nCall("step", nBin("-", nv, nInt(1)))), sRet(nBin("+", nVar("r"), nInt(1)))),
+		fnDef("boom", ip, "int", sIf(nBin("<=", nv, nInt(0)), bl(sRet(nBin("/", nInt(1), nInt(0))))), sRet(nBin("+", nInt(1), nCall("boom", nBin("-", nv, nInt(1)))))),
+	}
+	pi := nCall("parseInt", nVar("p"))
+	routes := [][]*c01N{
+		bl(sRet(nCall("down", pi))),
+		bl(sRet(nArr(nCall("step", pi)))),
+		bl(sRet(nCall("boom", pi))),
+		bl(sDecl("n", pi), sDecl("i", nInt(0)), sWhile(nBin("<", nVar("i"), nVar("n")), bl(sSet("i", nBin("+", nVar("i"), nInt(1))))), sRet(nVar("i"))),
+	}
+	return fns, routes
+}
+
+const (
+	l8Down = iota
+	l8Step
+	l8Boom
+	l8Loop
+)
+
+type l8Req struct {
+	kind int
+	p    string
+}
+
+// l8Case: the module reduced to the routes the scenario uses, the judged route last.
+func l8Case(hist []l8Req, judged l8Req) c01Case {
+	fns, routes := c01L8Module()
+	var used []int
+	idxOf := map[int]int{}
+	for _, h := range hist {
+		if h.kind == judged.kind {
+			continue
+		}
+		if _, ok := idxOf[h.kind]; !ok {
+			idxOf[h.kind] = len(used)
+			used = append(used, h.kind)
+		}
+	}
+	idxOf[judged.kind] = len(used)
+	used = append(used, judged.kind)
+	c := c01Case{Layer: "L8", P: judged.p, Prog: c01Prog{Fns: fns}}
+	for _, k := range used {
+		c.Prog.Routes = append(c.Prog.Routes, routes[k])
+	}
+	for _, h := range hist {
+		c.Hist = append(c.Hist, c01Req{Route: idxOf[h.kind], P: h.p})
+	}
+	return c
+}
+
+func c01L8(thorough bool, e func(func() c01Case), b map[string]any) {
+	n := 0
+	maxLen, win := 2, 5
+	if thorough {
+		maxLen, win = 3, 12
+	}
+	const scanMax = 520
+	// deepest recursion that is answered on a fresh interpreter, per form
+	fit := map[int]int{}
+	for _, k := range []int{l8Down, l8Step} {
+		fit[k] = c01L8Fit(k, scanMax)
+	}
+	itoa := func(i int) string { return fmt.Sprint(i) }
+	alphabet := []l8Req{{l8Down, "1000"}, {l8Step, "1000"}, {l8Boom, "100"}, {l8Boom, "1000"}, {l8Down, "5"}}
+	var hists [][]l8Req
+	var rec func(cur []l8Req)
+	rec = func(cur []l8Req) {
+		if len(cur) > 0 {
+			hists = append(hists, append([]l8Req(nil), cur...))
+		}
+		if len(cur) == maxLen {
+			return
+		}
+		for _, a := range alphabet {
+			rec(append(cur, a))
+		}
+	}
+	rec(nil)
+	var judged []l8Req
+	for _, k := range []int{l8Down, l8Step} {
+		seen := map[int]bool{}
+		add := func(d int) {
+			if d >= 0 && !seen[d] {
+				seen[d] = true
+				judged = append(judged, l8Req{k, itoa(d)})
+			}
+		}
+		for _, d := range []int{0, 1, 5, 30, 100} {
+			add(d)
+		}
+		for d := fit[k] - win; d <= fit[k]+win; d++ {
+			add(d)
+		}
+	}
+	judged = append(judged, l8Req{l8Boom, "0"}, l8Req{l8Boom, "5"}, l8Req{l8Loop, "3"})
+	for _, h := range hists {
+		for _, j := range judged {
+			e(func() c01Case { return l8Case(h, j) })
+			n++
+		}
+	}
+	cheap := n
+	// histories with a refused loop, and requests at the loop limit
+	loopOver := l8Req{l8Loop, "1000001"}
+	loopHists := [][]l8Req{{loopOver}, {loopOver, {l8Down, "1000"}}, {{l8Down, "1000"}, loopOver}}
+	if thorough {
+		loopHists = append(loopHists, []l8Req{loopOver, loopOver}, []l8Req{loopOver, {l8Boom, "100"}}, []l8Req{{l8Step, "1000"}, loopOver}, []l8Req{loopOver, {l8Loop, "999999"}})
+	}
+	loopJudged := []l8Req{{l8Loop, "3"}, {l8Loop, "999999"}, {l8Loop, "1000000"}, {l8Down, itoa(fit[l8Down])}, {l8Step, itoa(fit[l8Step])}}
+	if thorough {
+		loopJudged = append(loopJudged, l8Req{l8Loop, "999998"}, l8Req{l8Loop, "1000001"}, l8Req{l8Down, itoa(fit[l8Down] + 1)}, l8Req{l8Step, itoa(fit[l8Step] + 1)}, l8Req{l8Down, "5"})
+	}
+	for _, h := range loopHists {
+		for _, j := range loopJudged {
+			e(func() c01Case { return l8Case(h, j) })
+			n++
+		}
+	}
+	// the loop limit after each single request of the alphabet
+	for ai, a := range alphabet {
+		if !thorough && ai != 0 && ai != 2 {
+			continue // quick: after a too-deep request and after a runtime error 100 frames down
+		}
+		for ji, j := range []l8Req{{l8Loop, "999999"}, {l8Loop, "1000000"}} {
+			if !thorough && ji > 0 {
+				continue
+			}
+			e(func() c01Case { return l8Case([]l8Req{a}, j) })
+			n++
+		}
+	}
+	b["L8_histories_with_refused_evaluations"] = fmt.Sprintf("module of 3 recursive functions (recursion in an expression / from a statement / ending in a runtime error) + a counting while loop; %d histories = every sequence of ≤ %d requests over {too deep ×3 forms, runtime error 100 frames down, small} × %d judged requests (depths 0,1,5,30,100 and every depth within ±%d of the deepest that fits on a fresh interpreter — measured on the tree under test by scanning depths 0..%d: %d and %d — for 2 recursion forms, 2 failing requests, a 3-round loop): %d cases; + %d histories with a refused loop (10^6+1 rounds) × %d judged requests (loop of 3 rounds and at the limit: 999999, 10^6 rounds (thorough: 999998..1000001), both recursion forms at (thorough: and just past) the deepest that fits) and the loop at 999999 (thorough: and 10^6) rounds after a too-deep request and after a runtime error 100 frames down (thorough: after each single request of the alphabet): %d cases",
+		len(hists), maxLen, len(judged), win, scanMax, fit[l8Down], fit[l8Step], cheap, len(loopHists), len(loopJudged), n-cheap)
 }
